@@ -574,13 +574,46 @@ def rk_case(rep, name):
         worst = max(abs(ser.c[j] - Fraction(1, math.factorial(j))) for j in range(p + 1))
         rep.side(f'rk/{name}/alpha{al}:order-{p}', worst <= TOL, {'order_expected': p, 'max_coefficient_error': float(worst), 'coefficients': [float(x) for x in ser.c[: p + 2]]})
         if emb:
-            uo = cls.get_update_order()
+            uo = assumed_update_order(cls)  # the order the REAL step-size controller (AdaptivityRK in a real controller) assumes for this sweeper class
             s2 = series_of(R(sec), vm)
             worst2 = max(abs(ser.c[j] - s2.c[j]) for j in range(uo))
             rep.side(f'rk/{name}/alpha{al}:embedded-difference-order-{uo}', worst2 <= TOL, {'update_order': uo, 'max_low_coefficient_difference': float(worst2)})
     # the method must NOT be of order p+1 for all alpha (otherwise the declared order would be untestable): recorded, not asserted
     ser = series_of(Rz, {'zI': ZS, 'zE': Series.const(0)})
     rep.sample({'case': f'rk/{name}', 'stages': M, 'order': p, 'embedded': emb, 'next_coefficient_error': float(abs(ser.c[p + 1] - Fraction(1, math.factorial(p + 1))))}, limit=8)
+
+
+_ASSUMED = {}
+
+
+def assumed_update_order(cls):
+    """update order carried by the AdaptivityRK object of a real controller built for this sweeper class -- after controllers for two other embedded
+    classes (a higher and a lower order one) were built in the same process, as in a script that compares methods"""
+    if cls in _ASSUMED:
+        return _ASSUMED[cls]
+    import logging
+
+    import pySDC.implementations.sweeper_classes.Runge_Kutta as rk
+    from pySDC.implementations.controller_classes.controller_nonMPI import controller_nonMPI
+    from pySDC.implementations.convergence_controller_classes.adaptivity import AdaptivityRK
+    from pySDC.implementations.problem_classes.TestEquation_0D import testequation0d
+
+    logging.disable(logging.CRITICAL)
+
+    def carried(c_):
+        d = dict(problem_class=testequation0d, problem_params={'lambdas': np.array([-1.0]), 'u0': 1.0}, sweeper_class=c_, sweeper_params={},
+                 level_params={'dt': 0.1}, step_params={'maxiter': 1}, convergence_controllers={AdaptivityRK: {'e_tol': 1e-3}})
+        ctl = controller_nonMPI(1, {'logger_level': 50, 'dump_setup': False, 'mssdc_jac': False}, d)
+        return [C for C in ctl.convergence_controllers if isinstance(C, AdaptivityRK)][0].params.update_order
+
+    try:
+        for other in (rk.Cash_Karp, rk.Heun_Euler):
+            if other is not cls:
+                carried(other)
+        _ASSUMED[cls] = int(carried(cls))
+    except Exception:
+        _ASSUMED[cls] = int(cls.get_update_order())  # (classes the controller cannot be built for: the documented order)
+    return _ASSUMED[cls]
 
 
 def replay(path):
